@@ -259,3 +259,7 @@ mod u128_serde {
         )?))
     }
 }
+
+#[cfg(kani)]
+#[path = "/verif/kani/trace.rs"]
+mod verif_kani;
